@@ -1,6 +1,7 @@
 import OH.Proofs.EvalSpecDatedYear
 import OH.Proofs.EvalSpecDatedWide
 import OH.Proofs.DatedFar
+import OH.Proofs.EvalSpecDatedAll
 /-
 C01 refinement, dated ranges: the decidable class under which the model's filter is the specification's
 `datedOk` on every day of 1899-12-31 … 9999-12-31.
@@ -9,10 +10,13 @@ Since the pairing windows of `MonthdayRange::Date` are centred on the year the b
 (`yearBeforeOffset`: the year of `d - day offset`) the class no longer depends on the day, on year-locality
 or on the size of the shift relative to a year.  A defined meaning, and (`datedPlain`):
  * both bounds carry a year: ANY offsets;
- * two fixed dates without a year (`offsWideD`, OH/Proofs/EvalSpecDatedWide.lean): both day offsets within
-   ±92 000 000 days — as far as the years the code looks at (around the year of `d - offset`) are years of chrono's
-   calendar; the shifted instances the SPECIFICATION looks at (`yearSpan` years on either side of the day) may be
-   pinned at `NaiveDate::MIN/MAX` or lie outside the calendar: handled by weak monotonicity;
+ * two fixed dates without a year (`rangeAllD`, OH/Proofs/EvalSpecDatedAll.lean on top of EvalSpecDatedWide.lean):
+   ANY offsets.  The shifted instances the specification looks at (`yearSpan` years on either side of the day) may
+   be pinned at `NaiveDate::MIN/MAX` or lie outside the calendar: weak monotonicity; beyond ±92 000 000 days the
+   code's own windows are cut by the calendar and may hold pinned (equal) occurrences: `ensure_increasing_iter`
+   keeps one of each, and a window that starts at the first / ends at the last year of the calendar is adequate;
+   (`offsWideD`, ±92 000 000 days, is the part of this class the HINT theorems cover);
+ * a yearless start moved by +99 500 000 days or more: nothing ever starts (OH/Proofs/DatedFar.lean; any dates);
  * a start with a year before a yearless end, and Easter (`offsSmallD`, OH/Proofs/EvalSpecDated.lean,
    EvalSpecDatedYear.lean): both day offsets within ±30 000 000 days (every year looked at lies in
    -165 000 … 175 000, where no shifted instance saturates), within ±300 000 days when a bound is Easter (every
@@ -65,11 +69,15 @@ single day (`Feb 29 -N days-Feb 29 +M days`) the END offset only — the start o
 def offsWideD (s : DateSpec) (so : DateOffset) (e : DateSpec) (eo : DateOffset) : Bool :=
   fixedYearless s && fixedYearless e && offWideD eo && (s == e || offWideD so)
 
+/-- two fixed yearless dates — a range or a single day (OH/Proofs/EvalSpecDatedAll.lean): EVERY day offset,
+within and beyond representability -/
+def rangeAllD (s e : DateSpec) : Bool := fixedYearless s && fixedYearless e
+
 /-- Rule-level class (no reference to the day): the range has a defined meaning (`datedDefined`: not
 "no year … year") and
  * both bounds carry a year: any offsets;
- * two fixed dates without a year: both day offsets within ±92 000 000 days (`offsWideD`; a single day: the end
-   offset only);
+ * two fixed dates without a year (`Jan 01 …-Dec 31 …`, `Feb 29 -N days-Feb 29 +M days`): ANY offsets
+   (`rangeAllD`; `offsWideD`, ±92 000 000 days, is the part of it the hint theorems cover);
  * otherwise (a start with a year and a yearless end; Easter): both day offsets within ±30 000 000 days, ±300 000
    days when a bound is Easter (`offsSmallD`).
  * or: a yearless start moved by +99 500 000 days or more (`offFarStartD`, OH/Proofs/DatedFar.lean: beyond
@@ -78,7 +86,7 @@ Nothing else: any weekday shift, single days, ranges longer than a year, offsets
 years. -/
 def datedPlain (s : DateSpec) (so : DateOffset) (e : DateSpec) (eo : DateOffset) : Bool :=
   (((specYear s).isSome && (specYear e).isSome) || offsSmallD s so e eo || offsWideD s so e eo
-    || ((specYear s).isNone && offFarStartD so)) && datedDefined s e
+    || ((specYear s).isNone && offFarStartD so) || rangeAllD s e) && datedDefined s e
 
 /-- The class of (dated range, day) pairs the refinement covers: it no longer depends on the day (the
 parameter is kept for the statements that quantify over days). -/
@@ -119,18 +127,33 @@ theorem dated_eq_of_plain (s : DateSpec) (so : DateOffset) (e : DateSpec) (eo : 
   by_cases hfar : ((specYear s).isNone && offFarStartD so) = true
   · simp only [Bool.and_eq_true, Option.isNone_iff_eq_none, offFarStartD, decide_eq_true_eq] at hfar
     exact dated_far_eq s so e eo d hwf hfar.1 hfar.2 h2
+  by_cases hall : rangeAllD s e = true
+  · simp only [MonthdayRange.wf, Bool.and_eq_true] at hwf
+    obtain ⟨⟨⟨ws, wso⟩, we⟩, weo⟩ := hwf
+    simp only [rangeAllD, fixedYearless, Bool.and_eq_true, Option.isNone_iff_eq_none] at hall
+    obtain ⟨⟨fs, ys⟩, ⟨fe, ye⟩⟩ := hall
+    by_cases hse : s = e
+    · subst hse
+      cases s with
+      | easter yr => simp [isFixedDate] at fs
+      | fixed yr m dd =>
+        cases yr with
+        | some n => simp [specYear] at ys
+        | none => exact dated_single_eqA m dd so eo d wso weo h1 h2
+    · exact dated_yearless_eqA s so e eo d ⟨ws, wso, fs, ys⟩ ⟨we, weo, fe, ye⟩ (fun h => hse h.1) h1 h2
   simp only [MonthdayRange.wf, DateOffset.wf, Bool.and_eq_true] at hwf
   obtain ⟨⟨⟨ws, ⟨wso, _⟩⟩, we⟩, ⟨weo, _⟩⟩ := hwf
   unfold datedPlain at hsafe
-  rw [Bool.not_eq_true] at hfar
-  simp only [Bool.and_eq_true, Bool.or_eq_true, hwide, hfar] at hsafe
+  rw [Bool.not_eq_true] at hfar hall
+  simp only [Bool.and_eq_true, Bool.or_eq_true, hwide, hfar, hall] at hsafe
   obtain ⟨hoff, hdef⟩ := hsafe
   cases hsy : specYear s with
   | none =>
     have hoff : offsSmallD s so e eo = true := by
-      rcases hoff with ((h | h) | h) | h
+      rcases hoff with (((h | h) | h) | h) | h
       · simp [hsy] at h
       · exact h
+      · exact absurd h (by simp)
       · exact absurd h (by simp)
       · exact absurd h (by simp)
     obtain ⟨hss, hes, L, hL1, hLs, hLe, hL⟩ := offsSmallD_spec s so e eo hoff
@@ -153,9 +176,10 @@ theorem dated_eq_of_plain (s : DateSpec) (so : DateOffset) (e : DateSpec) (eo : 
     cases hey : specYear e with
     | none =>
       have hoff : offsSmallD s so e eo = true := by
-        rcases hoff with ((h | h) | h) | h
+        rcases hoff with (((h | h) | h) | h) | h
         · simp [hey] at h
         · exact h
+        · exact absurd h (by simp)
         · exact absurd h (by simp)
         · exact absurd h (by simp)
       obtain ⟨hss, hes, L, hL1, hLs, hLe, hL⟩ := offsSmallD_spec s so e eo hoff
